@@ -61,7 +61,7 @@ ASSUMPTIONS = [
     "truncated binary files are cut to fewer than 48 bytes (a miniSEED file cut at a record boundary is a valid shorter file)",
 ]
 NOT_REACHED = [
-    "in-memory inputs other than one io.BytesIO / io.StringIO per file (e.g. open file handles)", "text files whose last row has no line terminator, '\\r'-only line ends",
+    "in-memory inputs other than one io.BytesIO / io.StringIO per file (e.g. open file handles)", "'\\r'-only line ends",
     "non-integer or negative NORTH_ROT, non-integer SAMP_FREQ / sample rate in SAF and MiniShark headers",
     "PEER azimuth pairs that are not right-handed (h, h+90) with the first horizontal within 45 degrees of north (e.g. 180/270, 010/280: the reader keeps the stored polarity, which mirrors azimuthal results - reported as an aside, not judged)",
     "miniSEED files with gaps / more than one segment per channel, sample-count corruption inside miniSEED/GCF records",
@@ -475,6 +475,18 @@ def int_text_expected(cols_by_comp, dt, file_deg):
     return expected(adm["ns"], adm["ew"], adm["vt"], dt, file_deg)
 
 
+def maybe_strip_final_newline(ctx, rng, path, p=0.25):
+    """A text file need not end with a line terminator (many editors and exporters leave the last row open)."""
+    if rng.random() < p:
+        with open(path, "rb") as f:
+            raw = f.read()
+        with open(path, "wb") as f:
+            f.write(raw.rstrip(b"\r\n"))
+        ctx.count("text_files_without_final_line_terminator")
+        return True
+    return False
+
+
 def build_saf(ctx, rng, d, n, ch_ids=("V", "N", "E"), tag="saf", shared=None, eol=None):
     """shared = (data by comp, fs, north_rot) so that the 6 CHn_ID permutations store the same recording."""
     if shared is None:
@@ -488,6 +500,7 @@ def build_saf(ctx, rng, d, n, ch_ids=("V", "N", "E"), tag="saf", shared=None, eo
     path = os.path.join(d, f"{tag}_{''.join(ch_ids)}_{'crlf' if eol != chr(10) else 'lf'}.saf")
     FF.write_saf(path, [by_letter[x] for x in ch_ids], ch_ids, fs, north_rot, eol, rich_header=bool(rng.random() < 0.7))
     ctx.count("files_written:saf")
+    maybe_strip_final_newline(ctx, rng, path)
     if north_rot is None:
         file_deg = 0.0
     elif ch_ids[1] == "N":
@@ -511,6 +524,7 @@ def build_minishark(ctx, rng, d, n, tag="ms", shared=None, eol=None):
     path = os.path.join(d, f"{tag}_{'crlf' if eol != chr(10) else 'lf'}.minishark")
     FF.write_minishark(path, data["vt"], data["ns"], data["ew"], fs, gain, conv, eol)
     ctx.count("files_written:minishark")
+    maybe_strip_final_newline(ctx, rng, path)
     adm, approx = {}, {}
     for c in COMPS:
         x32 = np.asarray(data[c]).astype(np.float32)
@@ -565,6 +579,7 @@ def build_peer(ctx, rng, d, n, tag="peer"):
         paths[c] = os.path.join(d, f"{tag}_{codes[c]}.vt2")
         FF.write_peer(paths[c], toks, codes[c], dt_text, eol=eol)
         ctx.count("files_written:peer")
+        maybe_strip_final_newline(ctx, rng, paths[c])
     exp = expected([vals["ns"]], [vals["ew"]], [vals["vt"]], float(dt_text), file_deg)
     return {"fmt": "peer", "obspy_format": None, "paths": paths, "fnames": [paths[c] for c in COMPS], "exp": exp,
             "codes": codes, "style": style, "eol": eol, "dt_text": dt_text, "npts": ns_, "fs": fs, "scheme": scheme}
